@@ -78,7 +78,7 @@ def judge_call(ctx, c, case):
         why = 'roles'
     if ok:
         r = b.master_gear_ratio
-        ok = isinstance(r, float) and r > 0 and abs(r - e['ratio']) <= 1e-12 * e['ratio'] and (c.fn != 'joint' or r == 1.0)
+        ok = isinstance(r, (int, float)) and not isinstance(r, bool) and r > 0 and abs(r - e['ratio']) <= 1e-12 * e['ratio'] and (c.fn != 'joint' or r == 1)
         why = 'ratio'
     if ok and c.fn in ('gear', 'worm'):
         eta = b.master_gear_efficiency
